@@ -3,8 +3,8 @@
 Require Extraction.
 Require Import ExtrOcamlBasic ExtrOcamlZBigInt.
 From Coq Require Import ZArith QArith String.
-From GMGP Require Import Scalar GridDefs TridiagDefs SparseLUDefs ObjectsDefs InterpDefs StencilDefs SmootherDefs CycleDefs GridGenDefs.
-From GMGPGen Require Import GridIndexGen SpecialMembersGen.
+From GMGP Require Import Scalar GridDefs TridiagDefs SparseLUDefs ObjectsDefs InterpDefs StencilDefs SmootherDefs CycleDefs GridGenDefs ParDefs.
+From GMGPGen Require Import GridIndexGen SpecialMembersGen ParRegionsGen.
 
 Extraction Language OCaml.
 Set Extraction Optimize.
@@ -79,4 +79,6 @@ Extraction "model"
   q_block_update q_resid q_smoother_blocks q_ext_smoother_blocks
   cyc ecyc top_cycle init_ops solve_loop live_in all_writes ev_reads ev_writes
   aniso_indices aniso_accept aniso_in_bounds choose_levels gen_nr gen_ntheta
-  q_gen_radii_uniform q_gen_angles q_radii_valid_b q_close_b q_increasing_b q_midpoints_b.
+  q_gen_radii_uniform q_gen_angles q_radii_valid_b q_close_b q_increasing_b q_midpoints_b
+  find_race observed_write_ok observed_read_ok mkDims
+  gen_residual_give gen_residual_take gen_smoother_give gen_smoother_take gen_ext_smoother_give gen_ext_smoother_take.
